@@ -112,14 +112,15 @@ impl TransportVisitor for V {
         // peer's request, response, data, shutdown and reset in any order, reads and sends).
         let life = self.level == 5;
         if life {
-            menu.push((0, 0, 0, 0)); // listen
+            // (Established through connect + RESPONSE; the listening side is alphabet 4.)
             menu.push((2, 0, 0, 0)); // connect
             menu.push((3, 0, 0, 0)); // send
             menu.push((4, 0, 0, 0)); // recv
+            menu.push((4, 0, 0, 2)); // recv into a buffer of exactly one packet's length
             menu.push((5, 0, 0, 0)); // shutdown
             menu.push((6, 0, 0, 0)); // force_close
-            for oi in [0usize, 1, 2, 3, 4, 9, 10] {
-                menu.push((9, 0, 0, oi)); // REQUEST, RESPONSE, RST, SHUTDOWN, RW, SHUTDOWN with one hint only
+            for oi in [1usize, 2, 3, 4, 9, 10] {
+                menu.push((9, 0, 0, oi)); // RESPONSE, RST, SHUTDOWN, RW, SHUTDOWN with one hint only
             }
         }
         if !life {
@@ -144,6 +145,7 @@ impl TransportVisitor for V {
             menu.push((4, p, 0, 0)); // recv
             if p == 0 {
                 menu.push((4, p, 0, 1)); // recv into an empty buffer
+                menu.push((4, p, 0, 2)); // recv into a buffer of exactly one packet's length
             }
             menu.push((6, p, 0, 0)); // force_close
         }
@@ -236,7 +238,11 @@ impl TransportVisitor for V {
                 }
                 4 => {
                     let mut buf3 = [0u8; 3];
-                    let cap = if arg == 1 { 0 } else { 3 };
+                    let cap = match arg {
+                        1 => 0,
+                        2 => 2,
+                        _ => 3,
+                    };
                     let buf = &mut buf3[..cap];
                     let r = cm.recv(peer, lport, buf);
                     tag("recv");
